@@ -39,14 +39,35 @@ def apply_step10(a, st):
         return a.repeat(int(st["count"]), ops.key_py(st["axis"]))
     if fn == "transpose" and st.get("how") == "set":
         return a.transpose(set(ops.key_py(k) for k in st["dims"]))
+    if fn == "repeat" and st.get("as_axis"):
+        # repeat(<Axis object>): along the dimension the Axis names; repeat(<Axis object>, axis=): the Axis has a name of
+        # its own, the dimension is the one asked for.  The Axis may carry metadata
+        ax = core.build_axis(st["values"])
+        return a.repeat(ax, axis=ops.key_py(st["axis"])) if st["as_axis"] == "named" else a.repeat(ax)
+    if fn == "newaxis" and st.get("values_as") == "axis":
+        # newaxis(name, values=<Axis object>): the new dimension has the requested name, whatever the Axis is called
+        return a.newaxis(st["name"], values=core.build_axis(st["values"]), pos=st.get("pos", 0))
     return ops.apply_step(a, st)
 
 
-def lean_step10(st):
+def lean_step10(st, toks=None):
+    """the step as the model reads it; Axis objects handed to the library (the values of repeat / newaxis in their Axis
+    forms, the target axes of broadcast unless given as an OrderedDict of labels) go with their metadata"""
+    axis_form = (st["fn"] == "repeat" and st.get("as_axis")) or (st["fn"] == "newaxis" and st.get("values_as") == "axis")
+    targets_as_axes = st["fn"] == "broadcast" and st.get("how", "list") != "odict"
     st = ops.lean_step(st)
-    for k in ("count", "kwaxis", "invalid"):
+    for k in ("count", "kwaxis", "invalid", "values_as"):
         st.pop(k, None)
+    if st.get("values") is not None:
+        st["values"] = core.lean_axis(st["values"], toks if axis_form else None)
+    if st.get("target") is not None:
+        st["target"] = [core.lean_axis(t, toks if targets_as_axes else None) for t in st["target"]]
     return st
+
+
+def other_name(rng, taken):
+    """a name for an Axis object that is NOT the dimension it is used for (it may be another dimension's)"""
+    return rng.choice([d for d in gen.DIMS + ["t", "u", "ww"] if d != taken])
 
 
 def set_order(st):
@@ -104,8 +125,10 @@ class C10(Prop):
             "axes, a share with one zero-length axis), carrying array- and axis-level metadata; chains of 1-4 steps among "
             "transpose (list / tuple / varargs / set, names / positions / negative positions, default, .T), swapaxes "
             "(incl. swapaxes(i, i)), rollaxis (every axis, start), newaxis (every pos incl. -1, with and without values), "
-            "squeeze (all / one axis), repeat (array, Axis or an integer count), broadcast (list of axes / DimArray / "
-            "OrderedDict targets in any order) and broadcast_arrays / align_dims (a share with a label-less dimension); "
+            "squeeze (all / one axis), repeat (array, Axis or an integer count; an Axis object with a name of its own "
+            "together with axis=, and newaxis(name, values=<such an Axis>): the dimension keeps the requested name), "
+            "broadcast (list of axes / DimArray / OrderedDict targets in any order; target axes, and the Axis objects "
+            "given to repeat / newaxis, carry metadata of their own and every result axis' metadata is compared with the model) and broadcast_arrays / align_dims (a share with a label-less dimension); "
             "the inverse-permutation round trip; requests that name no permutation / pair of the dimensions (too few, "
             "a dimension twice, an unknown name, an integer position out of range) must be refused. "
             "Non-trivial = rank >= 2 or a dimension added/removed; distinct = canonical JSON")
@@ -227,6 +250,13 @@ class C10(Prop):
                 v = gen.rand_axis(rng, name, n=rng.randint(1, 3))
                 st["values"] = gen.clean(v)
                 newax = gen.clean(v)
+                if rng.random() < 0.4:
+                    # values given as an Axis object with a name of its own (and, often, metadata): the new dimension
+                    # is the REQUESTED one
+                    st["values_as"] = "axis"
+                    st["values"] = dict(st["values"], name=other_name(rng, name))
+                    if rng.random() < 0.6:
+                        st["values"]["attrs_py"] = {"units": "uv"}
             sim.axes.insert(pos, dict(newax, multi=None))
             return st
         if fn == "squeeze_all":
@@ -259,6 +289,14 @@ class C10(Prop):
             v = gen.clean(gen.rand_axis(rng, sim.axes[i]["name"], n=rng.randint(1, 3)))
             st = {"fn": "repeat", "values": v, "axis": sim.key(rng, i), "as_axis": rng.random() < 0.3}
             sim.axes[i] = dict(v, multi=None)
+            r = rng.random()
+            if r < 0.3:
+                # an Axis object with a name of its own together with axis=: the array is repeated along the dimension
+                # that was asked for, which keeps its name
+                st["as_axis"] = "named"
+                st["values"] = dict(v, name=other_name(rng, v["name"]))
+            if st["as_axis"] and rng.random() < 0.5:
+                st["values"] = dict(st["values"], attrs_py={"units": "uv"})
             return st
         if fn == "broadcast":
             # target: the current axes plus new ones, in any order; singleton axes may be replaced
@@ -272,6 +310,9 @@ class C10(Prop):
             for d in rng.sample(free, min(len(free), rng.randint(0, 2))):
                 target.append(gen.clean(gen.rand_axis(rng, d, n=rng.randint(1, 3))))
             rng.shuffle(target)
+            for t in target:
+                if rng.random() < 0.4:
+                    t["attrs_py"] = {"units": "t" + t["name"]}      # the target's metadata is not the array's: never taken over
             st = {"fn": "broadcast", "target": target, "how": rng.choice(["list", "odict", "dimarray"])}
             if not target:
                 st["how"] = "list"
@@ -441,7 +482,7 @@ class C10(Prop):
             return dict(DUMMY)
         steps = []
         for st in c["steps"]:
-            ls = lean_step10(st)
+            ls = lean_step10(st, toks)
             if st["fn"] == "transpose" and st.get("how") == "set":
                 ls["dims"] = set_order(st)
             steps.append(ls)
@@ -532,7 +573,11 @@ class C10(Prop):
             for s in c["steps"]:
                 f["fn:" + s["fn"]] = 1
                 if s["fn"] == "repeat":
-                    f["repeat.values"] = "int" if s.get("count") is not None else ("Axis" if s.get("as_axis") else "array")
+                    f["repeat.values"] = "int" if s.get("count") is not None else ("Axis+axis=" if s.get("as_axis") == "named" else "Axis" if s.get("as_axis") else "array")
+                if s["fn"] == "newaxis" and s.get("values") is not None:
+                    f["newaxis.values"] = "Axis" if s.get("values_as") == "axis" else "array"
+                if s["fn"] == "broadcast":
+                    f["broadcast.target_attrs"] = any(t.get("attrs_py") for t in s["target"])
                 if s["fn"] == "transpose" and s.get("dims") is not None:
                     f["transpose.how"] = s.get("how", "list")
                 if s["fn"] == "swapaxes" and s.get("same"):
